@@ -6,6 +6,8 @@
      parse_args over Gen/ConfigData.cli_table;
      stack = [command line; -s file if given; user configuration; packaged defaults];
      validation of every option of the template by settings_of;
+     the check main() makes itself on the raw value of rst.headers (a mapping is rejected:
+       Config.headers_ok, repair of F27);
      exclude patterns = all_contents: the concatenation, in priority order, of the list-of-string
        values of ALL sources, an error as soon as one source holds anything else;
      Walk.run_inputs over the per-input runs in command-line order, every run with the same
@@ -50,17 +52,20 @@ Definition finish (out : list action) : mainres :=
 Definition settings_object (st : list (str * cval)) (ex : list str) : py_settings_obj :=
   py_set_key excl_key (CStrs ex) st.
 
+(* the order of main(): settings.get(template), then the rst.headers check, then the exclude loop *)
 Definition model_configured (env : pyenv) (document : str -> py_settings_obj -> list action)
            (p : parsed) (file : option source) : mainres :=
   let stack := main_stack env p file in
   match settings_of (env_cwd env) stack template with
   | None => Raised ExcConfig []
   | Some st =>
-      match exclude_strs stack with
-      | None => Raised config_type_error []
-      | Some ex =>
-          finish (run_inputs (map (fun f => document f (settings_object st ex)) (p_positional p)))
-      end
+      if headers_ok stack then
+        match exclude_strs stack with
+        | None => Raised config_type_error []
+        | Some ex =>
+            finish (run_inputs (map (fun f => document f (settings_object st ex)) (p_positional p)))
+        end
+      else Raised config_type_error []
   end.
 
 Definition model_parsed (env : pyenv) (document : str -> py_settings_obj -> list action)
@@ -159,6 +164,45 @@ Example ex_run_bad_types_winning :
   = [Raised ExcConfig []; Raised config_type_error []].
 Proof. vm_compute. reflexivity. Qed.
 
+(* rst.headers in the -s file (repair of F27): a mapping is rejected by main() itself although
+   the StrSeq template would take its keys; a list or a string is used as before; a number is
+   rejected by the template; a mapping in the user configuration is not looked at when the -s file
+   sets the option, and is rejected when it is the winning value *)
+Definition ex_env_headers (file_vals user_vals : list (str * yval)) : pyenv :=
+  {| env_cwd := s"/work";
+     env_user := fun app => {| src_kind := SrcUser; src_vals := user_vals; src_dir := None |};
+     env_defaults := fun m => defaults_src;
+     env_load := fun path => Some {| src_kind := SrcFile; src_vals := file_vals; src_dir := Some (s"/work/cfg") |} |}.
+Definition ex_document_headers (f : str) (o : py_settings_obj) : list action :=
+  [APrint (f ++ s" headers=" ++ show_opt o (s"rst.headers"))].
+
+Example ex_run_headers :
+  map (fun v => py_run (main (ex_env_headers [(s"rst.headers", v)] []) ex_document_headers
+                             [s"a"; s"-s"; s"my.yaml"]))
+      [YMap [s"="; s"-"]; YMap []; YList [YStr (s"="); YStr (s"-")]; YStr (s"= -"); YInt 3;
+       YList [YStr (s"="); YInt 1]]
+  = [Raised config_type_error []; Raised config_type_error [];
+     Returned [APrint (s"a headers==,-")]; Returned [APrint (s"a headers==,-")];
+     Raised ExcConfig []; Raised ExcConfig []]
+  /\ py_run (main (ex_env_headers [(s"rst.headers", YStr (s"~"))] [(s"rst.headers", YMap [s"="])])
+                  ex_document_headers [s"a"; s"-s"; s"my.yaml"])
+     = Returned [APrint (s"a headers=~")]
+  /\ py_run (main (ex_env_headers [] [(s"rst.headers", YMap [s"="])]) ex_document_headers [s"a"; s"b"])
+     = Raised config_type_error []
+  /\ py_run (main (ex_env_headers [] []) ex_document_headers [s"a"])
+     = Returned [APrint (s"a headers=#,*,=,-,_,~,!,&,@,^")].
+Proof. vm_compute. repeat split; reflexivity. Qed.
+
+(* both the headers and the exclude filters wrong: the same exception class either way; the
+   template validation comes first (a number for the headers: ExcConfig) *)
+Example ex_run_headers_and_exclude :
+  map (fun vals => py_run (main (ex_env_headers vals []) ex_document_headers [s"a"; s"-s"; s"my.yaml"]))
+      [[(s"rst.headers", YMap [s"="]); (s"input.exclude_filters", YStr (s"build"))];
+       [(s"rst.headers", YInt 3); (s"input.exclude_filters", YStr (s"build"))];
+       [(s"rst.headers", YMap [s"="]); (s"input.recursive", YInt 3)]]
+  = [Raised config_type_error []; Raised ExcConfig []; Raised ExcConfig []].
+Proof. vm_compute. reflexivity. Qed.
+
 (* an unreadable -s file, a usage error, an input that ends the process *)
 Example ex_run_other :
   py_run (main (ex_env YNull) ex_document [s"a"; s"-s"; s"nope.yaml"]) = Raised ExcConfigRead []
@@ -230,6 +274,19 @@ Proof.
     + rewrite (IH Hk Hres). destruct (effective cwd (rel_to_config stack) stack k0 ty); reflexivity.
 Qed.
 
+(* the same for the other template types that have no fallback when every source is silent *)
+Lemma settings_of_missing : forall cwd stack tmpl k ty,
+  assoc k tmpl = Some ty -> none_ok ty = false -> resolve stack k = None ->
+  settings_of cwd stack tmpl = None.
+Proof.
+  intros cwd stack tmpl k ty. induction tmpl as [|[k0 ty0] r IH]; intros Hk Hn Hres; cbn [assoc] in Hk.
+  - discriminate Hk.
+  - cbn [settings_of]. destruct (str_eqb k k0) eqn:E.
+    + apply str_eqb_eq in E. subst k0. injection Hk as Hty. subst ty0.
+      unfold effective. rewrite Hres. destruct ty; try discriminate Hn; reflexivity.
+    + rewrite (IH Hk Hn Hres). destruct (effective cwd (rel_to_config stack) stack k0 ty0); reflexivity.
+Qed.
+
 Lemma settings_of_has_key : forall cwd stack tmpl st k,
   settings_of cwd stack tmpl = Some st -> mem_str k (map fst tmpl) = true -> assoc k st <> None.
 Proof.
@@ -296,7 +353,7 @@ Proof.
   destruct (all_strs l); reflexivity.
 Qed.
 
-(* one iteration of the exclude-filter loop (lines 135-141) is items_of *)
+(* one iteration of the exclude-filter loop (lines 140-146) is items_of *)
 Lemma main_for_1_spec : forall env acc v src w,
   main_for_1 env acc (v, src) w
   = match items_of v with
@@ -337,7 +394,7 @@ Proof.
     + destruct (all_contents r key); reflexivity.
 Qed.
 
-(* the document loop (lines 154-156) is run_inputs over the per-input runs, in order *)
+(* the document loop (lines 159-161) is run_inputs over the per-input runs, in order *)
 Lemma doc_loop : forall env document obj files w,
   py_for files (main_for_2 env document obj) tt w
   = let out := run_inputs (map (fun f => document f obj) files) in
@@ -358,6 +415,9 @@ Qed.
 Lemma view_rel : forall c,
   cfg_sub (cfg_sub (cfg_root c) (s"output")) (s"relative_to_config") = (c, s"output.relative_to_config").
 Proof. reflexivity. Qed.
+Lemma view_headers : forall c,
+  cfg_sub (cfg_sub (cfg_root c) (s"rst")) (s"headers") = (c, s"rst.headers").
+Proof. reflexivity. Qed.
 Lemma view_excl : forall c,
   cfg_sub (cfg_sub (cfg_root c) (s"input")) (s"exclude_filters") = (c, excl_key).
 Proof. reflexivity. Qed.
@@ -372,8 +432,19 @@ Lemma add_argument_calls_rendered : length cli_table = main_add_argument_calls.
 Proof. reflexivity. Qed.
 Lemma template_has_rel : assoc (s"output.relative_to_config") template = Some TBool.
 Proof. reflexivity. Qed.
+Lemma template_has_headers : assoc (s"rst.headers") template = Some TStrSeq.
+Proof. reflexivity. Qed.
 Lemma template_has_dir : mem_str (s"output.directory") (map fst template) = true.
 Proof. reflexivity. Qed.
+
+(* line 131: isinstance(settings[rst][headers].get(), dict) on the winning raw value is the
+   negation of Config.headers_ok *)
+Lemma headers_check : forall stack x src,
+  resolve stack (s"rst.headers") = Some (x, src) ->
+  py_isinstance x [PyT_dict] = negb (headers_ok stack).
+Proof.
+  intros stack x src H. unfold headers_ok. rewrite H. destruct x; reflexivity.
+Qed.
 
 Ltac mstep := rewrite run_bind; cbv beta iota zeta delta [py_ret py_raise].
 
@@ -412,21 +483,29 @@ Proof.
     (* line 126: settings.get(template) *)
     mstep. unfold cfg_get at 1, py_config_template. cbn [fst snd]. rewrite settings_with_rel.
     destruct (settings_of (env_cwd env) stack template) as [st|] eqn:Est; [|reflexivity].
-    cbv beta iota delta [py_ret]. unfold py_dict_to_settings.
-    (* lines 134-141: the exclude filters *)
+    cbv beta iota delta [py_ret].
+    (* lines 131-132: the rst.headers check of main() *)
+    mstep. rewrite view_headers. unfold cfg_view_get at 1. cbn [fst snd].
+    destruct (resolve stack (s"rst.headers")) as [[hv hsrc]|] eqn:Ehdr.
+    2:{ exfalso. rewrite (settings_of_missing _ _ _ _ _ template_has_headers eq_refl Ehdr) in Est.
+        discriminate Est. }
+    cbv beta iota delta [py_ret]. rewrite (headers_check _ _ _ Ehdr).
+    destruct (headers_ok stack); cbv beta iota delta [negb py_raise]; [|reflexivity].
+    unfold py_dict_to_settings.
+    (* lines 139-146: the exclude filters *)
     mstep. rewrite view_excl. unfold cfg_view_resolve. cbn [fst snd]. rewrite excl_loop.
     unfold exclude_strs. destruct (all_contents stack excl_key) as [fl|] eqn:Eall; [|reflexivity].
     cbn [app].
     destruct (all_contents_all_strs _ _ _ Eall) as [xs Hxs]. rewrite Hxs.
-    (* line 142 *)
+    (* line 147 *)
     mstep. unfold py_setattr_list at 1. rewrite Hxs. cbv beta iota delta [py_ret].
-    (* line 150 *)
+    (* line 155 *)
     mstep. rewrite dict_dir. unfold py_dict_value at 1. cbn [fst snd].
     destruct (assoc (s"output.directory") st) as [dir|] eqn:Edir.
     2:{ exfalso. exact (settings_of_has_key _ _ _ _ _ Est template_has_dir Edir). }
     cbv beta iota delta [py_ret].
     mstep. rewrite if_ret.
-    (* lines 154-156: the inputs *)
+    (* lines 159-161: the inputs *)
     mstep. rewrite files_dest, doc_loop. cbv zeta. cbn [app].
     unfold finish, settings_object, excl_key.
     destruct (existsb is_stop _); reflexivity. }
@@ -456,11 +535,13 @@ Lemma model_parsed_consulted : forall env document p stack,
   = match settings_of (env_cwd env) stack template with
     | None => Raised ExcConfig []
     | Some st =>
-        match exclude_strs stack with
-        | None => Raised config_type_error []
-        | Some ex =>
-            finish (run_inputs (map (fun f => document f (settings_object st ex)) (p_positional p)))
-        end
+        if headers_ok stack then
+          match exclude_strs stack with
+          | None => Raised config_type_error []
+          | Some ex =>
+              finish (run_inputs (map (fun f => document f (settings_object st ex)) (p_positional p)))
+          end
+        else Raised config_type_error []
     end.
 Proof.
   intros env document p stack H. unfold consulted in H. unfold model_parsed.
@@ -469,8 +550,9 @@ Proof.
 Qed.
 
 (* (1) a wrongly typed input.exclude_filters in ANY consulted source: main() raises and no input
-   is documented.  The exception is the ConfigTypeError of main() unless the template
-   validation, which comes first, already rejects the configuration. *)
+   is documented.  The exception is a ConfigTypeError of main() (raised by the exclude loop, or
+   by the rst.headers check, which comes before the loop, when that fails too) unless the
+   template validation, which comes first, already rejects the configuration. *)
 Theorem wrong_exclude_type_nothing_documented : forall env document toks p stack src v,
   parse_args cli_table toks = Some p ->
   consulted env p = Some stack ->
@@ -487,7 +569,8 @@ Proof.
   assert (Hall : all_contents stack excl_key = None).
   { apply exclude_wrong_type_rejected. exists src, v. repeat split; assumption. }
   apply exclude_strs_none in Hall. rewrite Hall.
-  destruct (settings_of (env_cwd env) stack template); reflexivity.
+  destruct (settings_of (env_cwd env) stack template); [|reflexivity].
+  destruct (headers_ok stack); reflexivity.
 Qed.
 
 (* in particular the outcome does not depend on the document function: it is never called *)
@@ -544,6 +627,92 @@ Proof.
   vm_compute in H. discriminate H.
 Qed.
 
+(* (1b) F27 closed at the level of the translated main(): a mapping as the winning value of
+   rst.headers: main() raises and no input is documented (the template validation, which comes
+   first, may already reject the configuration for another option) *)
+Theorem headers_mapping_nothing_documented : forall env document toks p stack ks src,
+  parse_args cli_table toks = Some p ->
+  consulted env p = Some stack ->
+  resolve stack (s"rst.headers") = Some (YMap ks, src) ->
+  py_run (main env document toks)
+  = Raised (match settings_of (env_cwd env) stack template with
+            | None => ExcConfig
+            | Some _ => config_type_error
+            end) [].
+Proof.
+  intros env document toks p stack ks src Hp Hc Hr.
+  rewrite main_matches_source. unfold model_main. rewrite Hp.
+  rewrite (model_parsed_consulted _ _ _ _ Hc).
+  assert (Hh : headers_ok stack = false) by (unfold headers_ok; rewrite Hr; reflexivity).
+  rewrite Hh. destruct (settings_of (env_cwd env) stack template); reflexivity.
+Qed.
+
+Example headers_mapping_nonvacuous :
+  let env := ex_env_headers [(s"rst.headers", YMap [s"="; s"-"])] [] in
+  let toks := [s"a"; s"-s"; s"my.yaml"] in
+  exists p stack src,
+    parse_args cli_table toks = Some p /\ consulted env p = Some stack
+    /\ resolve stack (s"rst.headers") = Some (YMap [s"="; s"-"], src)
+    /\ settings_of (env_cwd env) stack template <> None.
+Proof.
+  cbv zeta.
+  destruct (parse_args cli_table [s"a"; s"-s"; s"my.yaml"]) as [p|] eqn:Hp;
+    [|vm_compute in Hp; discriminate Hp].
+  exists p. vm_compute in Hp. injection Hp as Hp. subst p.
+  eexists. eexists. split; [reflexivity|]. split; [vm_compute; reflexivity|].
+  split; [vm_compute; reflexivity|]. vm_compute. discriminate.
+Qed.
+
+(* the main-level acceptance predicate of Proofs/ConfigFacts.v is exactly the condition under which
+   the translated main() raises nothing: all inputs are run (or the process ends inside document) *)
+Theorem main_raises_iff_not_accepted : forall env document toks p stack,
+  parse_args cli_table toks = Some p ->
+  consulted env p = Some stack ->
+  (main_accepts (env_cwd env) stack = false <-> exists e, py_run (main env document toks) = Raised e [])
+  /\ (main_accepts (env_cwd env) stack = true ->
+      exists st ex, settings_of (env_cwd env) stack template = Some st /\ exclude_strs stack = Some ex
+        /\ py_run (main env document toks)
+           = finish (run_inputs (map (fun f => document f (settings_object st ex)) (p_positional p)))).
+Proof.
+  intros env document toks p stack Hp Hc.
+  rewrite main_matches_source. unfold model_main. rewrite Hp.
+  rewrite (model_parsed_consulted _ _ _ _ Hc). unfold main_accepts. change excl_opt with excl_key.
+  assert (Hfin : forall out e, finish out <> Raised e []).
+  { intros out e. unfold finish. destruct (existsb is_stop out); discriminate. }
+  destruct (settings_of (env_cwd env) stack template) as [st|].
+  - destruct (headers_ok stack); cbn [andb].
+    + unfold exclude_strs. destruct (all_contents stack excl_key) as [l|] eqn:Eall.
+      * destruct (all_contents_all_strs _ _ _ Eall) as [xs Hxs]. rewrite Hxs. split.
+        -- split; [discriminate | intros [e He]; destruct (Hfin _ _ He)].
+        -- intros _. exists st, xs. repeat split; reflexivity.
+      * split; [|discriminate]. split; [intros _; eexists; reflexivity | reflexivity].
+    + split; [|discriminate]. split; [intros _; eexists; reflexivity | reflexivity].
+  - split; [|discriminate]. split; [intros _; eexists; reflexivity | reflexivity].
+Qed.
+
+(* hence, with ConfigFacts.wrong_type_rejected_by_main: a value of the wrong type as the winning
+   value of ANY option of the template makes the translated main() raise before any input is
+   documented -- no exception is left (F15 and F27 are both closed in main()) *)
+Corollary wrong_type_nothing_documented : forall env document toks p stack k ty v src,
+  parse_args cli_table toks = Some p ->
+  consulted env p = Some stack ->
+  In (k, ty) template -> yval_has_type ty v = false -> resolve stack k = Some (v, src) ->
+  exists e, py_run (main env document toks) = Raised e []
+            /\ In e [ExcConfig; config_type_error].
+Proof.
+  intros env document toks p stack k ty v src Hp Hc Hin Hty Hr.
+  pose proof (wrong_type_rejected_by_main (env_cwd env) stack k ty v src Hin Hty Hr) as Hna.
+  rewrite main_matches_source. unfold model_main. rewrite Hp.
+  rewrite (model_parsed_consulted _ _ _ _ Hc).
+  unfold main_accepts in Hna. change excl_opt with excl_key in Hna.
+  destruct (settings_of (env_cwd env) stack template) as [st|].
+  - destruct (headers_ok stack); cbn [andb] in Hna.
+    + unfold exclude_strs. destruct (all_contents stack excl_key); [discriminate Hna|].
+      exists config_type_error. split; [reflexivity | right; left; reflexivity].
+    + exists config_type_error. split; [reflexivity | right; left; reflexivity].
+  - exists ExcConfig. split; [reflexivity | left; reflexivity].
+Qed.
+
 (* any exception escapes before the first input is documented, and it is one of four *)
 Theorem main_exceptions : forall env document toks e acts,
   py_run (main env document toks) = Raised e acts ->
@@ -556,8 +725,10 @@ Proof.
                   acts = [] /\ In e [ExcArgparseExit; ExcConfigRead; ExcConfig; config_type_error]).
   { intros p file. unfold model_configured. cbv zeta.
     destruct (settings_of (env_cwd env) (main_stack env p file) template) as [st|].
-    - destruct (exclude_strs (main_stack env p file)) as [ex|].
-      + intros H. destruct (Hfin _ H).
+    - destruct (headers_ok (main_stack env p file)).
+      + destruct (exclude_strs (main_stack env p file)) as [ex|].
+        * intros H. destruct (Hfin _ H).
+        * intros H. injection H as He Ha. subst. split; [reflexivity|]. cbn [In]. auto.
       + intros H. injection H as He Ha. subst. split; [reflexivity|]. cbn [In]. auto.
     - intros H. injection H as He Ha. subst. split; [reflexivity|]. cbn [In]. auto. }
   destruct (parse_args cli_table toks) as [p|].
@@ -624,15 +795,16 @@ Theorem inputs_documented_in_order : forall env document toks p stack st,
   parse_args cli_table toks = Some p ->
   consulted env p = Some stack ->
   settings_of (env_cwd env) stack template = Some st ->
+  headers_ok stack = true ->
   forallb (excl_src_ok excl_key) stack = true ->
   py_run (main env document toks)
   = finish (run_inputs (map (fun f => document f (accepted_object stack st)) (p_positional p))).
 Proof.
-  intros env document toks p stack st Hp Hc Hst Hok.
+  intros env document toks p stack st Hp Hc Hst Hhd Hok.
   pose proof (exclude_is_union stack excl_key Hok) as Hall.
   destruct (all_contents_all_strs _ _ _ Hall) as [ex Hex].
   rewrite main_matches_source. unfold model_main. rewrite Hp.
-  rewrite (model_parsed_consulted _ _ _ _ Hc). rewrite Hst.
+  rewrite (model_parsed_consulted _ _ _ _ Hc). rewrite Hst, Hhd.
   unfold exclude_strs. rewrite Hall, Hex. unfold accepted_object.
   rewrite (all_strs_strs_of _ _ Hex). reflexivity.
 Qed.
@@ -643,13 +815,14 @@ Corollary inputs_documented_concat : forall env document toks p stack st,
   parse_args cli_table toks = Some p ->
   consulted env p = Some stack ->
   settings_of (env_cwd env) stack template = Some st ->
+  headers_ok stack = true ->
   forallb (excl_src_ok excl_key) stack = true ->
   forallb run_ok (map (fun f => document f (accepted_object stack st)) (p_positional p)) = true ->
   py_run (main env document toks)
   = Returned (concat (map (fun f => document f (accepted_object stack st)) (p_positional p))).
 Proof.
-  intros env document toks p stack st Hp Hc Hst Hok Hruns.
-  rewrite (inputs_documented_in_order env document toks p stack st Hp Hc Hst Hok).
+  intros env document toks p stack st Hp Hc Hst Hhd Hok Hruns.
+  rewrite (inputs_documented_in_order env document toks p stack st Hp Hc Hst Hhd Hok).
   rewrite (run_inputs_concat _ Hruns). unfold finish.
   set (obj := accepted_object stack st) in *.
   assert (Hno : existsb is_stop (concat (map (fun f => document f obj) (p_positional p))) = false).
@@ -665,6 +838,7 @@ Corollary stopping_input_is_last : forall env document toks p stack st pre f pos
   parse_args cli_table toks = Some p ->
   consulted env p = Some stack ->
   settings_of (env_cwd env) stack template = Some st ->
+  headers_ok stack = true ->
   forallb (excl_src_ok excl_key) stack = true ->
   p_positional p = pre ++ f :: post ->
   forallb run_ok (map (fun x => document x (accepted_object stack st)) pre) = true ->
@@ -673,8 +847,8 @@ Corollary stopping_input_is_last : forall env document toks p stack st pre f pos
   = Halted (concat (map (fun x => document x (accepted_object stack st)) pre)
             ++ document f (accepted_object stack st)).
 Proof.
-  intros env document toks p stack st pre f post Hp Hc Hst Hok Hfiles Hpre Hstop.
-  rewrite (inputs_documented_in_order env document toks p stack st Hp Hc Hst Hok).
+  intros env document toks p stack st pre f post Hp Hc Hst Hhd Hok Hfiles Hpre Hstop.
+  rewrite (inputs_documented_in_order env document toks p stack st Hp Hc Hst Hhd Hok).
   set (obj := accepted_object stack st) in *.
   rewrite Hfiles. rewrite map_app. cbn [map].
   assert (Hri : run_inputs (map (fun x => document x obj) pre ++ document f obj :: map (fun x => document x obj) post)
@@ -693,6 +867,7 @@ Example inputs_in_order_nonvacuous :
   exists p stack st,
     parse_args cli_table toks = Some p /\ consulted env p = Some stack
     /\ settings_of (env_cwd env) stack template = Some st
+    /\ headers_ok stack = true
     /\ forallb (excl_src_ok excl_key) stack = true
     /\ p_positional p = [s"b.cmake"; s"a"]
     /\ strs_of (expected_union excl_key stack) = [s"cli*"; s"file1"; s"user*"]
@@ -769,6 +944,9 @@ Proof. vm_compute. reflexivity. Qed.
    main_matches_source                      generated main() = model_main, all inputs
    wrong_exclude_type_nothing_documented    (1)   wrong_exclude_type_document_not_called,
                                                   wrong_exclude_type_error_kind_refuted
+   headers_mapping_nothing_documented       (1b)  F27 closed in the translated main()
+   main_raises_iff_not_accepted             ConfigFacts.main_accepts = the translated main() raises nothing
+   wrong_type_nothing_documented            no wrong-typed winning value is accepted by the translated main()
    main_exceptions                          exceptions escape before any input is documented
    inputs_documented_in_order               (2)   accepted_object_options, inputs_documented_concat,
                                                   stopping_input_is_last
@@ -794,3 +972,6 @@ Print Assumptions resolve_all_sources.
 Print Assumptions settings_with_rel.
 Print Assumptions excl_loop.
 Print Assumptions doc_loop.
+Print Assumptions headers_mapping_nothing_documented.
+Print Assumptions main_raises_iff_not_accepted.
+Print Assumptions wrong_type_nothing_documented.
